@@ -339,6 +339,30 @@ func (e *vcEnv) leaderImage(st vcState) string {
 	return path
 }
 
+// leaderImageWAL makes a database file holding pre and one WAL file that rewrites both pages to
+// version ver (what a leader with a full and an incremental snapshot streams).
+func (e *vcEnv) leaderImageWAL(pre vcState, ver int) (string, []string) {
+	e.seq += 2
+	e.nimages++
+	dir := filepath.Join(e.root, "leader")
+	vcMust(os.MkdirAll(dir, 0o755))
+	base := filepath.Join(dir, "image-"+string(rune('a'+e.nimages%26)))
+	db, wal := base+".db", base+".wal"
+	if !verifSymbolic() {
+		e.nativeLeaderImageWAL(db, wal, pre, ver)
+		e.tags[vcFileSum(db)] = vcTag{ok: true, lin: pre.lin, seq: e.seq - 1}
+		e.tags[vcFileSum(wal)] = vcTag{ok: true, lin: pre.lin, seq: e.seq}
+		return db, []string{wal}
+	}
+	n, err := vcCreateFile(db)
+	vcMust(err)
+	n.data = vcDBBytes(pre, e.seq-1)
+	w, err := vcCreateFile(wal)
+	vcMust(err)
+	w.data = vcWALBytes(pre.lin, e.seq, [2]int{ver, ver}, [2]int{pre.c[0] + 1, pre.c[1] + 1}, [2]bool{true, true})
+	return db, []string{wal}
+}
+
 // liveState: the database as a reader of the node sees it now.
 func (e *vcEnv) liveState() (vcState, bool) {
 	if !verifSymbolic() {
@@ -351,6 +375,34 @@ func (e *vcEnv) liveState() (vcState, bool) {
 		}
 	}
 	return st, true
+}
+
+// markerMatches: Store.Open's clean-snapshot check of the database file against the marker.
+func (e *vcEnv) markerMatches() bool {
+	if !verifSymbolic() {
+		return e.nativeMarkerMatches()
+	}
+	m, ok := vcFS.nodes[e.s.cleanSnapshotPath]
+	d, ok2 := vcFS.nodes[e.dbPath]
+	if !ok || !ok2 || m.fp == nil {
+		return false
+	}
+	return m.fp.mtime == d.mtime && m.fp.size == int64(len(d.data)) && m.fp.crc == vcCRCOf(d.data)
+}
+
+// removeMarker: "fsutil.RemoveFile(s.cleanSnapshotPath)" of the slow start.
+func (e *vcEnv) removeMarker() {
+	os.Remove(e.s.cleanSnapshotPath)
+}
+
+// dropWAL: createDBOnDisk(remove = false) keeps the database file and removes its WAL files.
+func (e *vcEnv) dropWAL() {
+	if !verifSymbolic() {
+		vcMust(sql.RemoveWALFiles(e.dbPath))
+		return
+	}
+	e.walHas = [2]bool{}
+	e.syncWALFile()
 }
 
 // walEmpty: nothing written since the last checkpoint.
@@ -486,6 +538,9 @@ type vcHist struct {
 	// WAL files retained from skipped / failed Persists were in the staging directory when a
 	// snapshot was installed from the leader; no full FSM snapshot and no restart since
 	retainedAtInstall bool
+	// index of the snapshot for which the clean-snapshot marker was last written (by the Finalizer
+	// inside Persist, or by fsmRestore)
+	markerIdx int
 }
 
 func vcNewHist() *vcHist {
@@ -568,18 +623,27 @@ func (h *vcHist) boot() {
 // with the leader's index; the leader's stream copied into the sink (Cancel on error); sink.Close;
 // then SnapshotStore.Open(sink.ID()), FSM.Restore(reader), reader closed; last applied = index of
 // the snapshot. The leader's image is the same database with every page rewritten by that entry,
-// streamed by the real snapshot.SnapshotStreamer from a database file (a leader whose newest
-// snapshot is a full one).
-func (h *vcHist) install() {
+// streamed by the real snapshot.SnapshotStreamer: either from a database file alone (a leader
+// whose newest snapshot is a full one), or (withWAL) from the database file as of this node's
+// applied state plus one WAL file holding that entry (a leader with a full and an incremental
+// snapshot).
+func (h *vcHist) install(withWAL bool) {
 	s := h.e.s
 	idx := uint64(h.applied + 1)
 	img := vcState{lin: h.live.lin, p: [2]int{int(idx), int(idx)}, c: [2]int{h.live.c[0] + 1, h.live.c[1] + 1}}
 	vcTick()
 	retained := h.stagedWALs() > 0
-	src := h.e.leaderImage(img)
+	var src string
+	var srcWALs []string
+	if withWAL {
+		src, srcWALs = h.e.leaderImageWAL(h.live, int(idx))
+		verifReach("installed-db-and-wal")
+	} else {
+		src = h.e.leaderImage(img)
+	}
 	sink, err := s.snapshotStore.Create(1, idx, 1, raft.Configuration{}, 0, nil)
 	verifAssert("C04-install-sink-create-ok", err == nil)
-	str, err := snapshot.NewSnapshotStreamer(src)
+	str, err := snapshot.NewSnapshotStreamer(src, srcWALs...)
 	verifAssert("C04-install-streamer-ok", err == nil)
 	verifAssert("C04-install-streamer-open-ok", str.Open() == nil)
 	_, cerr := io.Copy(sink, str)
@@ -592,6 +656,7 @@ func (h *vcHist) install() {
 	rc.Close()
 	verifAssert("C04-install-restore-ok", rerr == nil)
 	h.e.lin = img.lin
+	h.markerIdx = int(idx)
 	h.nop(img)
 	h.loadPending = false
 	h.fullForgotten = false
@@ -611,19 +676,41 @@ func (h *vcHist) checkLive(tag string) {
 	verifAssert("C04-"+tag+"-live-lineage", got.lin == h.live.lin)
 	verifAssert("C04-"+tag+"-live-page0", got.p[0] == h.live.p[0])
 	verifAssert("C04-"+tag+"-live-page1", got.p[1] == h.live.p[1])
+	verifAssert("C04-"+tag+"-live-writes0", got.c[0] == h.live.c[0])
+	verifAssert("C04-"+tag+"-live-writes1", got.c[1] == h.live.c[1])
 }
 
 // snapshot outcomes
 const (
 	vcOK          = iota
 	vcSkip        // raft gives up before Persist (configuration change outstanding): Release only
-	vcPersistFail // Persist fails after the stream was written (the finalizer fails); raft cancels the sink
+	vcPersistFail // Persist fails: the sink reports a write error after it has taken the data; raft cancels the sink
 	vcCkBusy      // the checkpoint inside FSM.Snapshot does not complete (retryable)
 	vcDieAtClose  // the process dies when raft is about to close the sink; restart
 	vcLoadRace    // a LOAD is applied between FSM.Snapshot and Persist
 )
 
 type vcCrash struct{ what string }
+
+// vcFailingSink is a snapshot sink whose Write hands the data to the real sink and then reports an
+// I/O error (a full disk, a failing device): Persist fails after the stream was written.
+type vcFailingSink struct {
+	raft.SnapshotSink
+}
+
+var vcErrSinkIO = &vcSinkIOError{}
+
+type vcSinkIOError struct{}
+
+func (*vcSinkIOError) Error() string { return "verif: snapshot sink write failed" }
+
+func (f *vcFailingSink) Write(p []byte) (int, error) {
+	n, err := f.SnapshotSink.Write(p)
+	if err != nil {
+		return n, err
+	}
+	return n, vcErrSinkIO
+}
 
 func (h *vcHist) stagedWALs() int {
 	w, err := h.e.s.StagedWALs()
@@ -687,10 +774,9 @@ func (h *vcHist) snapshot(outcome int) {
 	died := false
 	snapshot.VerifC04SetSinkFatal(sink, func(err error) { died = true })
 	if outcome == vcPersistFail {
-		s.cleanSnapshotPath = filepath.Join(h.e.root, "no-such-dir", "clean_snapshot")
+		sink = &vcFailingSink{SnapshotSink: sink}
 	}
 	perr := fsnap.Persist(sink)
-	s.cleanSnapshotPath = filepath.Join(h.e.root, "clean_snapshot")
 	if perr != nil {
 		sink.Cancel()
 		// OnRelease asks for a full snapshot after a failed Persist when there is no staging
@@ -711,6 +797,7 @@ func (h *vcHist) snapshot(outcome int) {
 		return
 	}
 	verifAssert("C04-persist-succeeds-unless-injected", outcome != vcPersistFail)
+	h.markerIdx = int(idx)
 	if outcome == vcDieAtClose {
 		verifReach("died-before-close")
 		h.restart()
@@ -800,13 +887,22 @@ func (h *vcHist) checkNewest(tag string, wantIdx uint64) (vcState, uint64, bool)
 	verifAssert("C04-"+tag+"-restored-lineage", got.lin == want.lin)
 	verifAssert("C04-"+tag+"-restored-page0", got.p[0] == want.p[0])
 	verifAssert("C04-"+tag+"-restored-page1", got.p[1] == want.p[1])
+	verifAssert("C04-"+tag+"-restored-writes0", got.c[0] == want.c[0])
+	verifAssert("C04-"+tag+"-restored-writes1", got.c[1] == want.c[1])
 	return got, m.Index, true
 }
 
-// restart: the process ends (crash or exit without a final snapshot) and starts again: NewStore's
-// start-up check of the snapshot directory, removal of the staging directory, the database is
-// rebuilt from the newest snapshot (no clean-snapshot marker: the slow path) and raft re-applies
-// the log entries after the snapshot's index.
+// restart: the process ends (crash or exit without a final snapshot) and starts again. What
+// Store.Open does within scope, in its order: snapshot.NewStore (real: the start-up check of the
+// snapshot directory); the clean-snapshot decision - "if the most recent snapshot operation ran to
+// completion ... we can skip restoring the SQLite database from the Raft snapshot store because
+// the contents are logically the same": snapshots exist, the marker is readable and the
+// modification time, size (and CRC) of the database file equal the marker's -> FAST start: the
+// database file stays, its WAL files are removed (createDBOnDisk), raft does not call FSM.Restore
+// and takes the newest snapshot's index as applied; otherwise SLOW start: the marker is removed, a
+// new empty database is created and raft hands the newest snapshot (SnapshotStore.List, Open) to
+// the REAL fsmRestore; the staging directory is removed; raft re-applies the log entries after
+// the snapshot's index.
 func (h *vcHist) restart() {
 	if !verifSymbolic() {
 		h.e.nativeClose()
@@ -817,23 +913,34 @@ func (h *vcHist) restart() {
 	if !any {
 		got, idx = vcState{}, 0
 	}
-	// createDBOnDisk(remove = true): a new, empty database ...
 	h.e.seq++
-	h.e.resetDB(vcState{})
-	h.e.attachDB()
-	if any {
-		// ... into which raft restores the newest snapshot: SnapshotStore.List, Open, FSM.Restore
-		metas, err := h.e.snaps.List()
-		verifAssert("C04-restart-list-ok", err == nil && len(metas) == 1)
-		_, rc, err := h.e.snaps.Open(metas[0].ID)
-		verifAssert("C04-restart-open-ok", err == nil)
-		rerr := NewFSM(h.e.s).Restore(rc)
-		rc.Close()
-		verifAssert("C04-restart-restore-ok", rerr == nil)
-		h.e.lin = got.lin
-	}
 	h.live = got
-	h.checkLive("restart-restored")
+	fast := any && h.e.markerMatches()
+	if fast {
+		h.e.dropWAL()
+		h.e.attachDB()
+		verifReach("restart-fast")
+		if cur, ok := h.e.liveState(); ok && cur == got {
+			verifReach("restart-fast-same-contents")
+		}
+	} else {
+		h.e.removeMarker()
+		h.e.resetDB(vcState{})
+		h.e.attachDB()
+		if any {
+			metas, err := h.e.snaps.List()
+			verifAssert("C04-restart-list-ok", err == nil && len(metas) == 1)
+			_, rc, err := h.e.snaps.Open(metas[0].ID)
+			verifAssert("C04-restart-open-ok", err == nil)
+			rerr := NewFSM(h.e.s).Restore(rc)
+			rc.Close()
+			verifAssert("C04-restart-restore-ok", rerr == nil)
+			h.e.lin = got.lin
+			h.markerIdx = int(idx)
+		}
+		verifReach("restart-slow")
+		h.checkLive("restart-restored")
+	}
 	h.loadPending = false
 	h.fullForgotten = false
 	h.retainedAtInstall = false
@@ -843,6 +950,15 @@ func (h *vcHist) restart() {
 		}
 	}
 	h.live = h.stateAt[h.applied]
+	if fast && h.markerIdx != int(idx) {
+		if cur, ok := h.e.liveState(); ok && cur != h.live {
+			// Recorded defect: the marker is written inside Persist (the Finalizer), BEFORE raft
+			// closes the sink. A process that dies in between restarts with a database file that
+			// already contains the entries after the newest PUBLISHED snapshot, keeps it (fast
+			// start) and re-applies those entries on top of it.
+			verifFinding("C04-marker-before-close")
+		}
+	}
 	h.checkLive("restart-replayed")
 	verifReach("restarted")
 }
@@ -886,6 +1002,8 @@ const (
 	stSnapCkBusy
 	stSnapDie
 	stSnapLoadRace
+	stW01        // the page-heavy write batch: both pages in one transaction
+	stInstallWAL // install of a leader image made of a database file and a WAL file
 	stKinds
 )
 
@@ -906,7 +1024,11 @@ func (h *vcHist) step(k int) {
 	case stBoot:
 		h.boot()
 	case stInstall:
-		h.install()
+		h.install(false)
+	case stInstallWAL:
+		h.install(true)
+	case stW01:
+		h.write(2)
 	case stTouch:
 		h.e.touch()
 	case stSnapPersistFail:
@@ -967,8 +1089,12 @@ func vcRun(prefix []int, k int, kinds int) {
 	for i := 0; i < k; i++ {
 		h.step(verifChoice(verifName("step", i), kinds))
 	}
-	// whatever happened, the node can restart from its store
+	// whatever happened, the node can restart from its store: as it is (fast or slow start) ...
 	h.restart()
+	// ... and with the restore forced (Store.ForceSnapshotRestore removes the marker)
+	h.e.removeMarker()
+	h.restart()
+	verifReach("restarted-forced")
 }
 
 // VerifC04History: every history of K free steps from every start state, then a restart.
@@ -985,17 +1111,17 @@ func VerifC04History() {
 // later full snapshot, load, boot or install"), as a product:
 //
 //	full snapshot; write page 0; snapshot that RETAINS its staged WAL (released without Persist |
-//	Persist fails); [the database is REPLACED or a full snapshot becomes due: LOAD | BOOT | INSTALL |
-//	file touched]; [nothing | write page 0 | write
+//	Persist fails); [the database is REPLACED or a full snapshot becomes due: LOAD | BOOT | INSTALL
+//	(database file | database file + WAL file) | file touched]; [nothing | write page 0 | write
 //	page 1 before the next snapshot - i.e. the WAL of the new database is empty or not when the full
-//	snapshot is cut]; snapshot (ok | released without Persist, then ok); write page 0 | page 1;
+//	snapshot is cut]; snapshot (ok | released without Persist, then ok); write page 0 | page 1 | both;
 //	snapshot ok; restart.
 func VerifC04Retained() {
 	retain := []int{stSnapSkip, stSnapPersistFail}[verifChoice("retain", 2)]
-	replace := []int{stLoad, stBoot, stInstall, stTouch}[verifChoice("replace", 4)]
+	replace := []int{stLoad, stBoot, stInstall, stTouch, stInstallWAL}[verifChoice("replace", 5)]
 	between := verifChoice("between", 3)
 	twice := verifChoice("full-twice", 2)
-	later := []int{stW0, stW1}[verifChoice("later", 2)]
+	later := []int{stW0, stW1, stW01}[verifChoice("later", 3)]
 	steps := []int{stW0, stSnapOK, stW0, retain, replace}
 	if between > 0 {
 		steps = append(steps, []int{stW0, stW1}[between-1])
